@@ -326,7 +326,8 @@ def binop(op, a, b):
         # identity with None
         for p, q in ((a, b), (b, a)):
             if is_const(q, None):
-                if p.k in ("obj", "bcat", "list", "tuple", "slice", "idx", "unpacked", "op", "enumcast", "class"):
+                if p.k in ("obj", "bcat", "list", "tuple", "slice", "idx", "unpacked", "op", "enumcast", "class", "structobj", "func", "bound",
+                           "crcobj", "crcfun", "dictlit", "listext", "optlist", "sliceobj", "lambda", "exc", "range"):
                     return C(op == "isnot")
                 if p.k == "const":
                     return C((p.a[0] is None) == (op == "is"))
